@@ -7,6 +7,7 @@ require (
 	github.com/dedis/kyber v0.0.0-20181211160045-59837fd0c24b
 	github.com/ethereum/go-ethereum v1.10.9
 	github.com/golang/protobuf v1.4.3
+	github.com/hashicorp/serf v0.8.3
 	golang.org/x/crypto v0.0.0-20210322153248-0c34fe9e7dc2
 )
 
